@@ -232,3 +232,23 @@ macro_rules! for_configs {
         }
     };
 }
+
+/// A smaller configuration table for binaries with very many operations (C04, C17): compile time.
+#[macro_export]
+macro_rules! for_configs_small {
+    ($w:expr, $n:expr, $m:ident $(, $a:expr)*) => {
+        match ($w, $n) {
+            (8, 1) => $m!($crate::BUintD8<1>, $crate::BIntD8<1>, u8, 1 $(, $a)*),
+            (8, 3) => $m!($crate::BUintD8<3>, $crate::BIntD8<3>, u8, 3 $(, $a)*),
+            (8, 5) => $m!($crate::BUintD8<5>, $crate::BIntD8<5>, u8, 5 $(, $a)*),
+            (16, 2) => $m!($crate::BUintD16<2>, $crate::BIntD16<2>, u16, 2 $(, $a)*),
+            (16, 3) => $m!($crate::BUintD16<3>, $crate::BIntD16<3>, u16, 3 $(, $a)*),
+            (32, 1) => $m!($crate::BUintD32<1>, $crate::BIntD32<1>, u32, 1 $(, $a)*),
+            (32, 3) => $m!($crate::BUintD32<3>, $crate::BIntD32<3>, u32, 3 $(, $a)*),
+            (64, 1) => $m!($crate::BUint<1>, $crate::BInt<1>, u64, 1 $(, $a)*),
+            (64, 2) => $m!($crate::BUint<2>, $crate::BInt<2>, u64, 2 $(, $a)*),
+            (64, 3) => $m!($crate::BUint<3>, $crate::BInt<3>, u64, 3 $(, $a)*),
+            _ => $crate::UNSUPPORTED.to_string(),
+        }
+    };
+}
